@@ -112,7 +112,10 @@ def faces_case(obs, rng, spec):
     rotate = chance(rng, 0.15)
     tiny = (not rotate) and chance(rng, 0.2)
     nfaces = int(rng.integers(8, 25))
-    mesh, winding, info = ff.free_face_mesh(rng, nfaces, rotate=rotate, tiny=tiny)
+    only_quads = chance(rng, 0.15)      # a mesh in which EVERY face has four sides, some of them concave
+    mesh, winding, info = ff.free_face_mesh(rng, nfaces, rotate=rotate, tiny=tiny, shape_class='quads' if only_quads else None)
+    if only_quads:
+        obs.cls('mesh:quadrilaterals-only')
     if tiny:
         obs.cls('mesh:tiny-cells-far-from-origin')
     model = make_ugrid(rng, mesh=mesh, winding=winding)
